@@ -18,7 +18,11 @@ Results == {0, -1, -2}      \* Simulate::run(): 0 executed, -1 illegal instructi
 
 \* e = [id, cpu, a, b] with a, b = [ret, digest]
 Returns(e)       == e.a.ret \in Results /\ e.b.ret \in Results
-Deterministic(e) == e.a = e.b
+\* a and b are two executions of the same step: from two fresh simulator objects, or (history cases) a in an object
+\* that executed another instruction before and was then put back into the prepared state, b in a fresh one.  pre = digest
+\* of the register dump before the step: the two must start from the same state for the clause to say anything
+SameStart(e) == ("pre" \notin DOMAIN e.a) \/ e.a.pre = e.b.pre
+Deterministic(e) == SameStart(e) => (e.a.ret = e.b.ret /\ e.a.digest = e.b.digest)
 \* e.space = size of the simulated address space in bytes (0 when the architecture's space is
 \* not stated here); e.top = highest 64 KiB page the simulator's memory object had to allocate
 Inside(e) == e.space = 0 \/ e.top < e.space
